@@ -29,6 +29,15 @@ REPLIES = [
     ("20", b"HTTP/1.1 20 Short\r\n\r\n", False),
     ("200OK_glued", b"HTTP/1.1 200OK\r\n\r\n", False),
     ("200.0", b"HTTP/1.1 200.0 OK\r\n\r\n", False),
+    # status tokens that are not the three digits "200" although a lenient number parser reads 200 out of them
+    ("+200", b"HTTP/1.1 +200 OK\r\n\r\n", False),
+    ("0200", b"HTTP/1.1 0200 OK\r\n\r\n", False),
+    ("2_0_0", b"HTTP/1.1 2_0_0 OK\r\n\r\n", False),
+    # control characters that str.split() - unlike bytes.split() and HTTP - treats as white space
+    ("us_before_200", b"HTTP/1.1\x1f200 OK\r\n\r\n", False),
+    ("rs_between_200_and_407", b"HTTP/1.1 200\x1e407 Proxy Authentication Required\r\n\r\n", False),
+    ("fs_after_200", b"HTTP/1.1 200\x1c OK\r\n\r\n", False),
+    ("gs_before_200", b"HTTP/1.1 \x1d200 OK\r\n\r\n", False),
     ("200;x", b"HTTP/1.1 200;x OK\r\n\r\n", False),
     ("299", b"HTTP/1.1 299 Custom Success\r\n\r\n", False),
     ("202", b"HTTP/1.1 202 Accepted\r\n\r\n", False),
